@@ -119,6 +119,55 @@ def r1(run: Run, src):
                       f'{m.name} changes the input {inp} but raises none of the flags {sorted(defeat)} on every path: after a first '
                       f'translation the next get_translation()/write_translation() returns the stale text',
                       fact=f'raises {sorted(raised)}', loc=loc_of(m.module.path, m.node))
+    # intermediate results kept on the Parser between calls (a parsed workbook, a context, ...): a later call may only reuse one
+    # when no setting changed -- the object was computed under the settings of the call that stored it
+    from ..paths import parent_map as _pm, path_conditions as _pc
+    parents_ = _pm(fn)
+
+    def _ev3(node, env):
+        """three-valued evaluation of a condition over the flags: anything else is unknown (None)"""
+        if isinstance(node, ast.BoolOp):
+            vals = [_ev3(v, env) for v in node.values]
+            if isinstance(node.op, ast.And):
+                return False if any(v is False for v in vals) else (True if all(v is True for v in vals) else None)
+            return True if any(v is True for v in vals) else (False if all(v is False for v in vals) else None)
+        if isinstance(node, ast.UnaryOp) and isinstance(node.op, ast.Not):
+            v = _ev3(node.operand, env)
+            return None if v is None else not v
+        if isinstance(node, ast.Attribute) and isinstance(node.value, ast.Name) and node.value.id == 'self' and node.attr in env:
+            return env[node.attr]
+        if isinstance(node, ast.Constant):
+            return bool(node.value)
+        return None
+    kept = {}
+    for s_ in rest:
+        for n in ast.walk(s_):
+            if isinstance(n, (ast.Assign, ast.AnnAssign, ast.AugAssign)):
+                for t in (n.targets if isinstance(n, ast.Assign) else [n.target]):
+                    if isinstance(t, ast.Attribute) and isinstance(t.value, ast.Name) and t.value.id == 'self' and \
+                            t.attr not in flags and t.attr != '_translation':
+                        kept.setdefault(t.attr, []).append(n)
+    for attr, sts in sorted(kept.items()):
+        reads = [n for s_ in rest for n in ast.walk(s_) if isinstance(n, ast.Attribute) and n.attr == attr and
+                 isinstance(n.value, ast.Name) and n.value.id == 'self' and isinstance(n.ctx, ast.Load)]
+        if not reads:
+            continue
+        for st_ in sts:
+            conds = [(t, pol) for t, pol in _pc(fn, st_, parents_) if t is not guard.test]
+            stale = []
+            for f in flags:
+                env = {g: (g == f) for g in flags}
+                vals = [(_ev3(t, env), pol) for t, pol in conds]
+                # the store is skipped (the old object is reused) unless every condition on its path certainly holds
+                certain = all(v is not None and v == pol for v, pol in vals)
+                if conds and not certain:
+                    stale.append(f)
+            run.check(not stale, 'C09.R1', f'Parser._translate/kept `{attr}`', 'kept-intermediate-ignores-setting',
+                      f'_translate keeps `self.{attr}` between calls and re-computes it only when '
+                      f'`{" and ".join(("" if pol else "not ") + ast.unparse(t)[:60] for t, pol in conds)}`: when only '
+                      f'{[f.replace("_has_been_changed", "") for f in stale]} changed, the object computed under the previous '
+                      f'settings is reused, so the next result does not correspond to the settings in force',
+                      fact='recomputed whenever a setting changed', loc=loc_of(fi.module.path, st_))
     # flags are cleared only after the translation is stored, at the end, unconditionally
     store_idx = [i for i, s in enumerate(body) if isinstance(s, ast.Assign) and any(
         isinstance(t, ast.Attribute) and t.attr == '_translation' for t in s.targets)]
